@@ -281,9 +281,11 @@ def _run(tier, seed, t0):
             atoms = atoms + ['of_nat ' + b for b, BT in bound if BT == 'nat']
         if d <= 0 or rng.random() < 0.3:
             a = rng.choice(atoms)
+            if a == '1 / 2':
+                return '((1::real) / 2)'
             if a[0] in '0123456789-':
                 return '(%s::%s)' % (a, T)
-            return a
+            return '(%s)' % a if ' ' in a else a
         k = rng.random()
         a, b = g_arith(T, d - 1, bound), g_arith(T, d - 1, bound)
         if k < 0.3:
@@ -307,7 +309,7 @@ def _run(tier, seed, t0):
         if k < 0.15:
             return rng.choice(['p', 'q'] + [b for b, BT in bound if BT == 'bool'])
         if k < 0.25:
-            return '%s : %s' % (g_arith('nat', 1, bound), rng.choice(['S', 'T']))
+            return '%s Mem %s' % (g_arith('nat', 1, bound), rng.choice(['S', 'T']))
         T = rng.choice(['nat', 'nat', 'int', 'real'])
         op = rng.choice(['=', '<', '<=', '>', '>=', '='])
         return '%s %s %s' % (g_arith(T, 2, bound), op, g_arith(T, 2, bound))
@@ -336,22 +338,37 @@ def _run(tier, seed, t0):
     directed = [
         "?n::nat. n < 0", "(!n::nat. 0 <= n) --> false", "~(!n::nat. n >= 0) --> p", "?n::nat. n + 1 = 0",
         "(?n::nat. n < x) --> x > 0", "~(?n::nat. n < 0)", "!n::nat. n >= 0", "(!n::nat. n > 0 --> n >= 1)",
-        "f = g --> false", "~(f = g)", "f = g --> f x = g x", "f = f", "S = T --> x : S --> x : T", "~(S = T)",
+        "f = g --> false", "~(f = g)", "f = g --> f x = g x", "f = f", "S = T --> x Mem S --> x Mem T", "~(S = T)",
         "(!n::nat. (of_nat n < (1::real) --> n = 0) & (of_nat n >= (1::real) --> n >= 1)) --> false",
         "!n::nat. of_nat n >= (0::real)", "?n::nat. of_nat n > r", "(?n::nat. of_nat n = r) --> r >= 0",
-        "r / 0 = 0", "r / r = 1", "r ~= 0 --> r / r = 1", "x - y + y = x", "x >= y --> x - y + y = x", "x - y <= x",
+        "r / 0 = 0", "r / r = 1", "~(r = 0) --> r / r = 1", "x - y + y = x", "x >= y --> x - y + y = x", "x - y <= x",
         "(x - y) - z = x - (y + z)", "i - j + j = i", "f x >= 0", "!m::nat. f m >= 0", "x * y >= 0", "i * i >= 0",
         "(?n::nat. !m::nat. m >= n)", "(!n::nat. ?m::nat. m < n) --> false", "(?n::int. n < 0)", "?n::nat. !m::nat. n <= m",
         "(!n::int. n >= 0) --> false", "(!n::nat. f n = 0) --> f 2 = 0", "(!n::nat. f n > n) --> f (f 0) > 1",
         "~(?n::nat. n + n = 1)", "?n::nat. n + n = 1", "(?n::nat. 2 * n = x) | (?n::nat. 2 * n + 1 = x)",
         "min x y <= x", "max x y >= y", "abs i >= 0", "abs r >= r", "(if x < y then x else y) <= x",
-        "!b::bool. b | ~b", "?b::bool. b & ~b", "(!n::nat. n : S) --> 3 : S", "(?n::nat. n : S & n < 0) --> false",
-        "?n::nat. n : S & n < 0", "(!n::nat. n : S --> n < 0) --> S = T", "of_nat (x + y) = of_nat x + (of_nat y :: real)",
-        "of_nat x >= (0::real)", "of_nat x = (of_nat y :: real) --> x = y", "x < y --> of_nat x < (of_nat y :: real)",
+        "!b::bool. b | ~b", "?b::bool. b & ~b", "(!n::nat. n Mem S) --> 3 Mem S", "(?n::nat. n Mem S & n < 0) --> false",
+        "?n::nat. n Mem S & n < 0", "(!n::nat. n Mem S --> n < 0) --> S = T", "of_nat (x + y) = of_nat x + of_nat y + (0::real)",
+        "of_nat x >= (0::real)", "of_nat x = of_nat y + (0::real) --> x = y", "x < y --> of_nat x < of_nat y + (0::real)",
         # user variables named like the fresh names the wrapper invents (r<name> for of_nat <name>, <name>1 for binders)
         "of_nat x = rx", "!n::nat. !rn::real. of_nat n = rn", "!x::nat. !rx::real. of_nat x = rx", "of_nat x = rx --> false",
         "of_nat y = ry & ry < 0 --> false", "!m::nat. !rm::real. of_nat m <= rm", "(?x1::nat. x1 < x) --> x1 < x",
         "(!x1::nat. x1 >= a1) --> a1 = 0", "(?a::nat. a > a1) & a1 > 5 --> (?a::nat. a > 7)",
+        # Boolean constants / the empty set on EITHER side of an equivalence (the wrapper simplifies these itself
+        # before translating)
+        "false <--> p", "p <--> false", "true <--> p", "p <--> true", "(false <--> p) --> ~p", "(p <--> false) --> ~p",
+        "(false <--> p) --> p", "(true <--> p) --> p", "(true <--> p) --> ~p", "(x < 0 & false) <--> q",
+        "q <--> (x < 0 & false)", "(x < 0 | true) <--> q", "q <--> (x < 0 | true)", "(p --> false) <--> ~p", "(false --> p) <--> q",
+        "(empty_set::nat set) = S", "S = (empty_set::nat set)", "x Mem (empty_set::nat set) <--> x Mem S",
+        "x Mem S <--> x Mem (empty_set::nat set)", "(univ::nat set) = S", "S = (univ::nat set)",
+        "S = (empty_set::nat set) --> x Mem S --> false", "(empty_set::nat set) = S --> x Mem S --> false",
+        # numerals that are not in normal form, numerals in the branches of conditionals
+        "(2::real) / 10 = 1 / 5", "~((2::real) / 10 = 1 / 5)", "~((1::real) / 10 + 2 / 10 = 3 / 10)",
+        "(1::real) / 10 + 2 / 10 = 3 / 10", "p --> (if p then (1::real) else 0) / 2 = 0",
+        "p --> (if p then (1::real) else 0) / 2 = 1 / 2", "max (1::real) 2 / 4 = 0", "max (1::real) 2 / 4 = 1 / 2",
+        "(6::real) / 4 = 3 / 2", "(6::real) / 4 = 1", "r * (2 / 10) = r / 5", "~(r * (2 / 10) = r / 5)",
+        "(if p then (3::real) else 1) / 2 >= 1 / 2", "(if p then (3::real) else 1) / 2 = 1", "abs (3::real) / 2 = 1",
+        "min (5::real) 3 / 2 = 1", "(7::int) - 9 < 0", "(7::nat) - 9 = 0", "((3::real) + 1) / 8 = 1 / 2", "((3::real) + 1) / 8 = 0",
     ]
 
     def z3_case(src, family):
